@@ -337,34 +337,10 @@ func c32Batch(p *core.Prog, r *core.Report) {
 	// order: the gzip wrapping is never reachable after the limiter was installed
 	after := g.Reach(core.After(limN[0], nil), nil, nil)
 	r.Check(!after[gzN[0]], rule, f.String(), "gzip-after-limit", g.Line(gzN[0]), "gzip.NewReader is not reachable after NewLimitedReadCloser: the limit counts decompressed bytes")
-	// gzip cases
-	isGzipCase := core.TagEdge8(func(tag, ce ast.Expr) bool {
-		if core.ObjOf(info, tag) != enc {
-			return false
-		}
-		s, ok := strConst8(info, ce)
-		return ok && (s == "gzip" || s == "x-gzip")
-	})
-	core.RuleOnlyVia8(r, f, g, rule, "gzip.NewReader", "encoding is gzip/x-gzip", func(n *core.Node) bool { return n == gzN[0] }, isGzipCase, 1)
-	seen := map[string]bool{}
-	for _, n := range g.Nodes {
-		for _, e := range n.Succ {
-			if isGzipCase(e) {
-				s, _ := strConst8(info, e.Cond)
-				seen[s] = true
-				// from the case edge every path to a success exit passes gzip.NewReader
-				reach := g.Reach([]*core.Node{e.To}, func(x *core.Node) bool { return x == gzN[0] }, nil)
-				bad := false
-				for _, x := range g.SuccessExits() {
-					if reach[x] {
-						bad = true
-					}
-				}
-				r.Check(!bad, rule, f.String(), "case-skips-gzip:"+s, g.Line(n), "Content-Encoding "+s+" always passes gzip.NewReader before a successful return")
-			}
-		}
-	}
-	r.Check(seen["gzip"] && seen["x-gzip"], rule, f.String(), "encodings", f.Pos(), "both gzip and x-gzip are decoded")
+	// gzip cases: decided under a valuation of the encoding parameter, so a tag
+	// switch, an if/else chain, one `a || b` condition, a temporary or a
+	// predicate helper all mean the same thing (c32x.go).
+	c32GzipCases(p, r, f, g, enc, gzN[0], rule)
 	// limiter installed exactly where max > 0, and on every such path
 	pos := core.CmpFactEdge8(func(c core.Cmp8) bool {
 		if core.ObjOf(info, c.L) != max {
@@ -1005,63 +981,13 @@ func c32Handle(p *core.Prog, r *core.Report) {
 		}
 	}
 	if r.Check(pwe != nil, "anchor", "tsdb.PartialWriteError", "unresolved", "-", "type resolved") {
-		var pv types.Object
-		ast.Inspect(f.Decl.Body, func(n ast.Node) bool {
-			if as, ok := n.(*ast.AssignStmt); ok && len(as.Lhs) == 2 && len(as.Rhs) == 1 {
-				if ta, ok := ast.Unparen(as.Rhs[0]).(*ast.TypeAssertExpr); ok && ta.Type != nil && types.Identical(info.TypeOf(ta.Type), pwe) {
-					pv = core.ObjOf(info, as.Lhs[0])
-				}
-			}
-			return true
-		})
-		fwd := false
-		unproc, _ := errCodeConst8(p, "EUnprocessableEntity")
-		var werr0 types.Object
-		if as, ok := wn[0].N.(*ast.AssignStmt); ok && len(as.Lhs) == 1 {
-			werr0 = core.ObjOf(info, as.Lhs[0])
-		}
-		// the response built on the `ok` branch of the type assertion
-		okPartial := core.FactEdge8(func(x ast.Expr, v bool) bool {
-			o := core.ObjOf(info, x)
-			if o == nil || !v {
-				return false
-			}
-			for _, a := range core.AssignsTo8(info, f.Decl.Body, o) {
-				if ta, isTA := a.Rhs.(*ast.TypeAssertExpr); isTA && a.Index == 1 && ta.Type != nil && types.Identical(info.TypeOf(ta.Type), pwe) {
-					return true
-				}
-			}
-			return false
-		})
-		for _, n := range g.Select(g.Calling(handle)) {
-			if len(g.Bypassing8([]*core.Node{n}, okPartial)) > 0 {
-				continue
-			}
-			for _, c := range core.CallsIn(info, n.N, handle, core.WalkOpts{}) {
-				if len(c.Args) != 3 {
-					continue
-				}
-				code, inner, ok := errorLitFields8(p, info, c.Args[1])
-				io := core.ObjOf(info, inner)
-				if ok && io != nil && (io == pv || io == werr0) && selObj8(info, code) == unproc && unproc != nil {
-					fwd = true
-				}
-			}
-		}
-		r.Check(fwd, rule, f.String(), "partial-write-not-forwarded", g.Line(wn[0]), "a tsdb.PartialWriteError is passed on as Err of an EUnprocessableEntity response (the message states the dropped count)")
-		// every other write failure also carries the error
-		generic := false
 		var werr types.Object
 		if as, ok := wn[0].N.(*ast.AssignStmt); ok && len(as.Lhs) == 1 {
 			werr = core.ObjOf(info, as.Lhs[0])
 		}
-		for _, c := range core.AllCalls(info, f.Decl.Body, handle) {
-			if len(c.Args) == 3 {
-				if _, inner, ok := errorLitFields8(p, info, c.Args[1]); ok && werr != nil && core.ObjOf(info, inner) == werr {
-					generic = true
-				}
-			}
-		}
+		fwd, generic := c32WriteErrorForwarded(p, f, g, handle, pwe, werr)
+		r.Check(fwd, rule, f.String(), "partial-write-not-forwarded", g.Line(wn[0]), "a tsdb.PartialWriteError is passed on as Err of an EUnprocessableEntity response (the message states the dropped count)")
+		// every other write failure also carries the error
 		r.Check(generic, rule, f.String(), "write-error-not-forwarded", g.Line(wn[0]), "any other WritePoints error is passed on as Err of the response")
 	}
 	// decodeWriteRequest
